@@ -3676,7 +3676,19 @@ def push(
                 )
 
         if remote_name is not None:
-            _import_remote_refs(r.refs, remote_name, remote_changed_refs)
+            # only what the remote accepted is recorded as its new state
+            rejected = {
+                ref for ref, error in (result.ref_status or {}).items() if error
+            }
+            _import_remote_refs(
+                r.refs,
+                remote_name,
+                {
+                    ref: sha
+                    for ref, sha in remote_changed_refs.items()
+                    if ref not in rejected
+                },
+            )
 
         # --set-upstream: configure tracking for pushed branches
         if set_upstream and remote_name is not None:
